@@ -28,6 +28,7 @@ THEOREMS = [
     'CpProofs.C06.etags_CLok',
     'CpProofs.C06.gzip_CLok',
     'CpProofs.C06.tee_CLok',
+    'CpProofs.C06.probe_CLok',
     'CpProofs.C06.setError_CLok',
     'CpProofs.C06.setRedirect_CLok',
     'CpProofs.C06.encodeStage_CLok',
@@ -36,6 +37,10 @@ THEOREMS = [
     'CpProofs.C06.hit_CLok',
     'CpProofs.C06.applyStep_CLok',
     'CpProofs.C06.runSteps_CLok',
+    'CpProofs.C06.builtin_StepOk',
+    'CpProofs.C06.rewrite_and_delete_StepOk',
+    'CpProofs.C06.runAny_CLok',
+    'CpProofs.C06.forgetful_step_breaks',
     'CpProofs.C06.finalize_ok',
     'CpProofs.C06.respond_ok',
     # the statement at the WSGI boundary
@@ -148,9 +153,13 @@ KEY_CODES = {100, 200, 201, 204, 205, 206, 301, 303, 304, 305, 402, 404, 406, 41
 ALL_SUBSETS = [[t for i, t in enumerate(TOOLS) if m >> i & 1] for m in range(1 << len(TOOLS))]
 
 
-def mk(body='bytes', st='-', tools=(), reqs=None, page='tmpl', ct='html', hcl=0, hstream=0):
+HOOK_PRIOS = [40, 60, 77, 90, 110]
+HOOK_ACTS = ['e402', 'e404', 'e412', 'r303', 'r304', 'r306', 'x', 's204', 's201', 'w' + H(b'REWRITTEN'), 'w']
+
+
+def mk(body='bytes', st='-', tools=(), reqs=None, page='tmpl', ct='html', hcl=0, hstream=0, hook='-'):
     return {'body': BODIES[body], 'bname': body, 'st': st, 'tools': sorted(tools), 'page': page, 'ct': ct,
-            'hcl': hcl, 'hstream': hstream, 'reqs': reqs or [{'m': 'GET'}]}
+            'hcl': hcl, 'hstream': hstream, 'hook': hook, 'reqs': reqs or [{'m': 'GET'}]}
 
 
 def req(m='GET', ae='-', inm='-', im='-', ac='-', rng='-'):
@@ -179,6 +188,7 @@ def normalise(case):
         for r in c['reqs']:
             r['range'] = '-'
     c['tools'] = sorted(tools)
+    c.setdefault('hook', '-')
     return c
 
 
@@ -204,7 +214,7 @@ def model_line(case):
     if case['hcl'] and not case['body'].startswith('X:'):
         hcl = str(R.own_length(case, R.parse_body(case['body'])[1]))
     return ' '.join([tools, page, case['ct'], hcl, str(int(bool(case['hstream']))),
-                     case['st'], body, ';'.join(reqs)])
+                     case['st'], body, case.get('hook', '-'), ';'.join(reqs)])
 
 
 # ----------------------------------------------------------------------------------------------
@@ -358,8 +368,56 @@ def eval_chunk(cases):
 
 
 def nontrivial(case):
-    return bool(case['tools']) or case['st'] != '-' or case['bname'] not in ('bytes',) or len(case['reqs']) > 1 \
+    return bool(case['tools']) or case['st'] != '-' or case.get('hook', '-') != '-' or case['bname'] not in ('bytes',) or len(case['reqs']) > 1 \
         or any(r['m'] != 'GET' or r['ae'] != '-' or r['inm'] != '-' or r['im'] != '-' for r in case['reqs'])
+
+
+def still_fails(case, sig):
+    try:
+        return any(s == sig for _, s in eval_case(normalise(case))[1])
+    except common.HarnessError:
+        return False
+
+
+def shrink_case(case, sig):
+    """Greedy minimisation of a failing case: fewer requests, fewer tools, default headers / page / flags."""
+    cur = json.loads(json.dumps(case))
+    changed = True
+    rounds = 0
+    while changed and rounds < 14:
+        changed = False
+        rounds += 1
+        cands = []
+        for i in range(len(cur['reqs'])):
+            if len(cur['reqs']) > 1:
+                c = json.loads(json.dumps(cur))
+                del c['reqs'][i]
+                cands.append(c)
+        for t in cur['tools']:
+            c = json.loads(json.dumps(cur))
+            c['tools'] = [x for x in c['tools'] if x != t]
+            cands.append(c)
+        for i, r in enumerate(cur['reqs']):
+            for k, dflt in (('ae', '-'), ('inm', '-'), ('im', '-'), ('ac', '-'), ('range', '-'), ('m', 'GET')):
+                if r.get(k, dflt) != dflt:
+                    c = json.loads(json.dumps(cur))
+                    c['reqs'][i][k] = dflt
+                    cands.append(c)
+        for k, dflt in (('page', 'tmpl'), ('hcl', 0), ('hstream', 0), ('ct', 'html'), ('st', '-'), ('hook', '-')):
+            if cur.get(k, dflt) != dflt:
+                c = json.loads(json.dumps(cur))
+                c[k] = dflt
+                cands.append(c)
+        if cur['bname'] != 'bytes':
+            c = json.loads(json.dumps(cur))
+            c['bname'], c['body'] = 'bytes', BODIES['bytes']
+            cands.append(c)
+        for c in cands:
+            if still_fails(c, sig):
+                cur = normalise(c)
+                changed = True
+                break
+    return cur
 
 
 def process(ctx, cases, compare_model=True, procs=1):
@@ -381,6 +439,8 @@ def process(ctx, cases, compare_model=True, procs=1):
         for t in case['tools']:
             ctx.count('tool:' + t)
         ctx.count('history:' + '+'.join(r['m'] for r in case['reqs']))
+        if case.get('hook', '-') != '-':
+            ctx.count('hook:' + case['hook'].split(':')[1][:1] + '@' + case['hook'].split(':')[0])
         for o in obs:
             ctx.count('resp:%s' % (o['status'] if o['status'] in KEY_CODES else '%dxx' % (o['status'] // 100)))
             ctx.count('framing:' + ('stream' if o['stream'] else 'buffered') + '/' +
@@ -390,6 +450,14 @@ def process(ctx, cases, compare_model=True, procs=1):
             if o['ce']:
                 ctx.count('gzipped')
         for what, sig in bad:
+            if ctx.match_known(sig) is None and len(ctx.oracle_failures) < 3:
+                small = shrink_case(case, sig)
+                if small != case:
+                    again = [w for w, s2 in eval_case(small)[1] if s2 == sig]
+                    if again:
+                        ctx.oracle_fail(small, again[0] + ' :: ' + model_line(small) + '  (shrunk from: ' + line + ')',
+                                        sig)
+                        continue
             ctx.oracle_fail(case, what + ' :: ' + line, sig)
         if model is not None and not bad:
             ctx.compared()
@@ -454,6 +522,18 @@ def systematic_quick():
         for tools in ([], ['gzip'], ['encode'], ['etags'], ['stream'], ['caching']):
             for m in ('GET', 'HEAD'):
                 out.append(mk('static', '-', tools, [req(m, ae='gzip', rng=rg)]))
+    # a user hook raising / rewriting / re-statusing at every position of the before_finalize chain
+    for prio in HOOK_PRIOS:
+        for act in HOOK_ACTS:
+            for once in (0, 1):
+                hook = '%d:%s:%d' % (prio, act, once)
+                for b, tools, rq in (('bytes', ['gzip', 'etags', 'caching'], req('GET', ae='gzip')),
+                                     ('static', ['gzip', 'etags'], req('GET', ae='gzip', rng='bytes=2-5')),
+                                     ('static', ['stream'], req('HEAD', rng='bytes=2-5')),
+                                     ('gen', ['flatten', 'stream', 'gzip'], req('GET', ae='gzip')),
+                                     ('big', ['caching', 'expires'], req('HEAD'))):
+                    out.append(mk(b, '-', tools, [rq, dict(rq)] if 'caching' in tools else [rq], hook=hook,
+                                  hcl=1, page='short'))
     # charsets
     for b in TEXTY:
         for ac in ACS:
@@ -481,8 +561,11 @@ def random_case(rng):
                         im=rng.choice(CONDS) if rng.random() < 0.2 else '-',
                         ac=rng.choice(ACS) if rng.random() < 0.4 else '-',
                         rng=rng.choice(RANGES) if rng.random() < 0.5 else '-'))
+    hook = '-'
+    if rng.random() < 0.25:
+        hook = '%d:%s:%d' % (rng.choice(HOOK_PRIOS), rng.choice(HOOK_ACTS), rng.choice([0, 1, 1]))
     return normalise(mk(b, st, tools, reqs, page=rng.choice(PAGES), ct=rng.choice(['html', 'html', 'plain', 'json', 'octet']),
-                        hcl=int(rng.random() < 0.35), hstream=int(rng.random() < 0.15)))
+                        hcl=int(rng.random() < 0.35), hstream=int(rng.random() < 0.15), hook=hook))
 
 
 def core_lattice():
@@ -495,6 +578,19 @@ def core_lattice():
                         yield normalise(mk(b, st, tools, [req('GET', ae='gzip'), req(m, ae='gzip')], page='short'))
                     else:
                         yield normalise(mk(b, st, tools, [req(m, ae='gzip')], page='short'))
+
+
+def hook_lattice():
+    """every probe hook (position x action x once) x every tool subset x three handlers"""
+    for prio in HOOK_PRIOS:
+        for act in HOOK_ACTS:
+            for once in (0, 1):
+                hook = '%d:%s:%d' % (prio, act, once)
+                for tools in ALL_SUBSETS:
+                    for b, m in (('bytes', 'GET'), ('static', 'GET'), ('tgen', 'HEAD')):
+                        rq = req(m, ae='gzip', rng='bytes=2-5')
+                        yield normalise(mk(b, '-', tools, [rq, dict(rq)] if 'caching' in tools else [rq],
+                                           hook=hook, hcl=1, page='short'))
 
 
 def corpus_cases():
@@ -520,13 +616,16 @@ def run(ctx):
     procs = ctx.budget(4, 16)
     sysq = systematic_quick()
     process(ctx, sysq, procs=procs)
-    n = ctx.budget(4000, 120000)
+    n = ctx.budget(10000, 100000)
     process(ctx, [random_case(ctx.rng) for _ in range(n)], procs=procs)
     if not ctx.quick():
         core = list(core_lattice())
         process(ctx, core, procs=procs)
+        hooks = list(hook_lattice())
+        process(ctx, hooks, procs=procs)
         ctx.extra['exhaustive'] = True
         ctx.extra['exhaustive_core_lattice'] = len(core)
+        ctx.extra['exhaustive_hook_lattice'] = len(hooks)
     ctx.extra['systematic_block'] = len(sysq)
 
 
